@@ -50,7 +50,7 @@ CFG = {
     "required_classes": [
         # (sub-check drop is an exhaustive enumeration, reported under exhaustive_subdomain; its classes stay empty
         # for as long as every ring hits the known double-munmap finding)
-        "sock:abstract-unix-listener", "sock:connect-to-abstract-address-through-the-ring",
+        "peek:completion-ring-overflowed", "sock:abstract-unix-listener", "sock:connect-to-abstract-address-through-the-ring",
         "fs:op-readv", "fs:op-writev", "fs:op-read-fixed", "fs:op-write-fixed", "fs:op-openat", "fs:op-close", "fs:op-statx", "fs:op-mkdirat",
         "fs:op-unlinkat", "fs:op-renameat", "fs:op-timeout", "fs:op-poll-add", "fs:link-chain", "fs:chain-entries-cancelled",
         "fs:failing-entry", "fs:short-transfer", "fs:descriptor-result", "fs:independent-chains",
